@@ -130,6 +130,10 @@ def pipeline(coords, species, M, site_frac, labels, want_volume=True, li_cols=(0
     m = traj.metrics()
     out['metrics'] = (float(m.tracer_diffusivity(dimensions=3)), float(m.particle_density()), float(m.vibration_amplitude()), float(m.attempt_frequency()[0]))
     out['speed_tie'] = bool(np.any(np.abs(np.asarray(m.speed())[:, 1:]) < 1e-9))
+    try:
+        out['D_com'] = float(m.tracer_diffusivity_center_of_mass(dimensions=3))
+    except Exception as e:  # noqa: BLE001
+        out['D_com'] = ('raise', type(e).__name__)
     if want_volume:
         li = traj.filter('Li')
         vol = li.to_volume(resolution=RES)
@@ -276,6 +280,12 @@ def compare(base, got, spec, dims):
         bm[2] = gm[2] = 0.0
     if not np.allclose(bm, gm, rtol=1e-7, atol=0):
         v.append(('metrics-change', f'{base["metrics"]} vs {got["metrics"]}'))
+    a, b = base.get('D_com'), got.get('D_com')
+    if isinstance(a, tuple) or isinstance(b, tuple):
+        if a != b:
+            v.append(('centre-of-mass-diffusivity-changes', f'{a} vs {b}'))
+    elif abs(a - b) > 1e-7 * max(abs(a), abs(b)) + 1e-9 * abs(base['metrics'][0]):
+        v.append(('centre-of-mass-diffusivity-changes', f'{a} vs {b}'))
     if 'volume' in base and 'volume' in got:
         shift = None
         if 'tau' in spec:
